@@ -94,6 +94,13 @@ check("C19",
   "The frontier is capped at 1500 histories per level beyond depth 4 (reported as exhaustive=false with the level). Staking slips are out of scope (staking off).",
   "DESIGN.md §3 C19")
 
+check("C08",
+  "exhaustive grid over the work function plus bounded-exhaustive boundary blocks and lottery outcomes against the implementation",
+  "model_checking",
+  "(1) The real work function is evaluated at every elapsed time 1..2hb+2 for heartbeats {1,2,100,5000} x ~50 boundary burn fees (0, 1, 10^n-1, 10^n, 2^53+-1, 2^63+-1, 2^64-1, the misordering sentinel): non-increasing in elapsed time, zero from two heartbeats on, sentinel for misordered timestamps (~5*10^5 evaluations, the whole grid). (2) Real blocks produced on a 3-block chain at elapsed in {1, hb/2, hb, 2hb-1, 2hb} whose single fee-paying transaction delivers exactly needed-2..needed+2 work through each of 7 path variants (1 hop, 2 hops with halving, no path, last hop not the creator, broken chain, forged hop signature, self hop): accepted iff an independent oracle (every hop signature verifies, hops contiguous, last hop = creator, halving per extra hop) counts at least the requirement. (3) Payout blocks for 24 (quick) / 64 (thorough) distinct golden-ticket solutions, paying one or two earlier fee blocks: every output of the fee transaction goes to the ticket's solver or to a key that originated or routed a transaction of a paid block, and the outputs sum to at most the fees those blocks collected.",
+  "A 1-nolan band around the float-rounded requirement is a don't-care. Lottery outcomes are covered per distinct winner reachable in the small world, not per hash value.",
+  "DESIGN.md §3 C08")
+
 NOT_YET = "check not built yet in this session (work in progress, see DESIGN.md §8 build order); nothing is claimed for it"
 NA = {}
 
